@@ -1,5 +1,6 @@
 import stl_reader
 import struct
+import os
 from ..mesh_data import RawMeshData
 from collections import deque
 import warnings
@@ -15,6 +16,9 @@ def import_stl(path : str):
     if is_stl_ascii(path):
         return _import_stl_ascii(path)
     else:
+        if os.path.getsize(path) <= 84:
+            # header only, no facet : stl_reader aborts the interpreter on such a file
+            return RawMeshData()
         vertices, faces =  stl_reader.read(path)
         out = RawMeshData()
         out.vertices += list(vertices)
@@ -59,7 +63,7 @@ def _import_stl_ascii(path : str):
 # License: MIT License 
 
 def export_stl(mesh, path :str):
-    if not hasattr(mesh, "faces"):
+    if not hasattr(mesh, "faces") or mesh.faces.empty():
         warnings.warn("No faces detected in the object. Nothing to write. Returning.")
         return
     with open(path, 'wb') as fp:
